@@ -279,6 +279,19 @@ def _(v):
     except Exception as e:
         okdec = repr(e)
     v.prove("eight_decimal_compositions_balanced_as_given", okdec is True, detail=repr(okdec))
+    # seven decimals where rounding to fewer digits changes the answer: the decimals as written decide (the two modes without the ILP)
+    seven = []
+    for mode in (True, False):
+        for subs7, reac7, prod7, want7 in (({"A": Substance("A", composition={1: 0.3333333}), "B": Substance("B", composition={1: 1})}, ["A"], ["B"], ({"A": 10000000}, {"B": 3333333})),
+                                           ({"A": Substance("A", composition={1: 1.2345678, 2: 1}), "B": Substance("B", composition={1: 1}), "C": Substance("C", composition={2: 1})}, ["A"], ["B", "C"],
+                                            ({"A": 5000000}, {"B": 6172839, "C": 5000000}))):
+            try:
+                r7, p7 = bs(reac7, prod7, substances=subs7, underdetermined=mode)
+                if (dict(r7), dict(p7)) != want7:
+                    seven.append((mode, dict(r7), dict(p7)))
+            except Exception as e:
+                seven.append((mode, repr(e)[:80]))
+    v.prove("seven_decimal_compositions_balanced_as_written", not seven, detail=repr(seven[:2]))
     # nothing is remembered between calls: the same keys with another substance_factory are balanced against THAT factory's compositions
     lab_a, lab_b = {"ox": {8: 3}, "atom": {8: 1}}, {"ox": {8: 2}, "atom": {8: 1}}
     fa = lambda k: Substance(k, composition=dict(lab_a[k]))
@@ -371,3 +384,39 @@ def _(v):
                 bad.append((rows, got, "claimed"))
     v.prove("feasible_matrices_get_a_solution_of_minimal_coefficient_sum", not bad, detail=repr(bad[:3]))
     v.prove("both_kinds_exercised", cases == 40 and 3 <= infeasible <= 37, detail="%d infeasible of %d" % (infeasible, cases))
+
+
+@harness("C02", "bystanders_and_exact_ilp_rows", functions=[CH + ":balance_stoichiometry", CH + ":_solve_balancing_ilp_pulp"], kind="data")
+def _(v):
+    """(a) 'for a reaction whose balanced solutions form a single ray the result is that unique minimal solution in all modes': a `substances`
+    mapping (or string) may describe more species than the reaction uses; a bystander's elements are not elements of the reaction and do not
+    make the pre-check refuse it; (b) 'the smallest-integers mode returns a positive solution of minimal coefficient sum', also when a
+    composition is a non-terminating fraction (1/3): the optimum 3 R -> 9 P0 + 2 P1 + P2 (sum 15), checked against brute force, not its double"""
+    import itertools
+    from collections import OrderedDict
+    from fractions import Fraction as Fr
+    from chempy.chemistry import balance_stoichiometry, Substance
+    out = {}
+    for mode in (True, False, None):
+        for label, subs in (("string", "H2 O2 H2O N2 NaCl"), ("mapping", OrderedDict((k, Substance.from_formula(k)) for k in ("N2", "H2", "O2", "NaCl", "H2O")))):
+            try:
+                r, p = balance_stoichiometry(["H2", "O2"], ["H2O"], substances=subs, underdetermined=mode)
+                if (dict(r), dict(p)) != ({"H2": 2, "O2": 1}, {"H2O": 2}):
+                    out[(mode, label)] = (dict(r), dict(p))
+            except Exception as ex:
+                out[(mode, label)] = repr(ex)[:80]
+    v.prove("bystander_species_in_substances", not out, detail=repr(out))
+    for label, half in (("fraction", Fr(1, 2)), ("float", 0.5)):
+        s = {"R": Substance("R", composition={1: 4, 2: Fr(1, 3)}), "P0": Substance("P0", composition={1: 1}), "P1": Substance("P1", composition={1: 1, 2: half}), "P2": Substance("P2", composition={1: 1})}
+        best = None
+        for xs in itertools.product(range(1, 13), repeat=4):
+            if 4 * xs[0] == xs[1] + xs[2] + xs[3] and Fr(1, 3) * xs[0] == Fr(1, 2) * xs[2]:
+                if best is None or sum(xs) < sum(best):
+                    best = xs
+        try:
+            r, p = balance_stoichiometry(["R"], ["P0", "P1", "P2"], substances=s, underdetermined=None)
+            got = (r["R"], p["P0"], p["P1"], p["P2"])
+            ok, det = sum(got) == sum(best) == 15 and 4 * got[0] == got[1] + got[2] + got[3] and Fr(1, 3) * got[0] == Fr(1, 2) * got[2], "%r brute force %r" % (got, best)
+        except Exception as ex:
+            ok, det = False, repr(ex)[:120]
+        v.prove("minimal_sum_with_a_non_terminating_fraction." + label, ok, detail=det)
